@@ -14,6 +14,10 @@ TRK = 'tracklib.core.track'
 UTL = 'tracklib.core.utils'
 
 LISTS = {'w5': [1.0, 2.0, 4.0, 2.0, 1.0], 'w5b': [0.5, 3.0, 1.0, 0.25, 2.0], 'w7': [1.0, 1.0, 2.0, 3.0, 2.0, 1.0, 1.0]}
+# scale probes: long windows (9..21 weights) on long signals (fixed values except a few symbolic samples, one or two interior NaN)
+LONGLISTS = {'w9': [1.0, 2.0, 3.0, 4.0, 5.0, 4.0, 3.0, 2.0, 1.0], 'w9b': [0.5, 1.0, 0.25, 2.0, 1.5, 3.0, 0.75, 1.0, 2.5], 'w11': [1.0] * 11,
+             'w15': [1.0, 1.0, 2.0, 2.0, 3.0, 3.0, 4.0, 5.0, 4.0, 3.0, 3.0, 2.0, 2.0, 1.0, 1.0], 'w21': [float(1 + (j * 3) % 5) for j in range(21)]}
+LISTS.update(LONGLISTS)
 KCLASSES = ['UniformKernel', 'TriangularKernel', 'GaussianKernel', 'ExponentialKernel', 'EpanechnikovKernel', 'CubicKernel', 'SphericKernel']
 
 
@@ -62,7 +66,22 @@ class C15(Check):
                 js.append(dict(kind='filt', n=n, ker='sym3', nan=[(p >> i) & 1 for i in range(n)], api='operate'))
             js.append(dict(kind='filt', n=n, ker='sym3', nan=[0] * n, api='seq'))
             js.append(dict(kind='const', n=n, ker='sym3'))
+        for name in (['w9', 'w9b', 'w15'] if q else sorted(LONGLISTS)):
+            N = len(LISTS[name])
+            for n in ([N + 12] if q else [N, N + 1, N + 12, 3 * N]):
+                for nanidx in ([], [N // 2 + 3], [1, n - 3]):
+                    nan = [1 if i in nanidx else 0 for i in range(n)]
+                    js.append(dict(kind='filt', n=n, ker=name, nan=nan, api='operate', long=[N // 2 + 2, N // 2 + 4, n - 2]))
+                js.append(dict(kind='filt', n=n, ker=name, nan=[1 if i == N // 2 + 3 else 0 for i in range(n)], api='seq', long=[N // 2 + 2, n - 2]))
+        for kname in ('G2', 'T5', 'U4'):
+            for b in (False, True):
+                n = 40
+                js.append(dict(kind='filt', n=n, ker=kname, nan=[1 if i in (12, 30) else 0 for i in range(n)], api='operate' if b else 'seq', boundary=b, long=[11, 13, 38]))
+                if not q:
+                    js.append(dict(kind='filt', n=n, ker=kname, nan=[0] * n, api='seqxy', boundary=b, long=[11, 13, 38]))
         for name, w in LISTS.items():
+            if name in LONGLISTS:
+                continue
             for n in range(len(w), len(w) + (2 if q else 3)):
                 js.append(dict(kind='filt', n=n, ker=name, nan=[0] * n, api='operate'))
                 js.append(dict(kind='filt', n=n, ker=name, nan=[0, 1] + [0] * (n - 2), api='operate'))
@@ -99,7 +118,7 @@ class C15(Check):
             return list(w), list(w), False
         if k in LISTS:
             return list(LISTS[k]), list(LISTS[k]), False
-        obj = {'G1': lambda: ker.GaussianKernel(1), 'T2': lambda: ker.TriangularKernel(2), 'U1': lambda: ker.UniformKernel(1), 'Dirac': lambda: ker.DiracKernel()}[k]()
+        obj = {'G2': lambda: ker.GaussianKernel(2), 'T5': lambda: ker.TriangularKernel(5), 'U4': lambda: ker.UniformKernel(4), 'G1': lambda: ker.GaussianKernel(1), 'T2': lambda: ker.TriangularKernel(2), 'U1': lambda: ker.UniformKernel(1), 'Dirac': lambda: ker.DiracKernel()}[k]()
         obj.setFilterBoundary(bool(job.get('boundary')))
         # the oracle samples the kernel function itself at the integer offsets (independent of toSlidingWindow)
         if k == 'Dirac':
@@ -118,6 +137,8 @@ class C15(Check):
         for i in range(n):
             if job['nan'][i]:
                 out.append(float('nan'))
+            elif job.get('long') is not None and i not in job['long']:
+                out.append(float(((i * 7) % 13) - 6) * 0.75)
             elif inp is None:
                 out.append(eng.real('x%d' % i, -10, 10))
             else:
